@@ -84,6 +84,16 @@ def run(ctx):
     ctx.check(ok, "R19.1", "AvroWriter.write:mixed-types", f"records are only refused when `{shown}`: a second record type whose descriptor differs in a way this test ignores (e.g. same "
               "name, other fields) is written against the first type's schema - unknown fields dropped, missing ones written as null", guards[-1] if guards else wr,
               f"`self.desc != {r}._desc` -> raise dominates writer.write", key="R19.1:AvroWriter.write:weak-descriptor-test")
+    # the schema the writer validates against is derived from the descriptor it holds - not looked up by name in something shared
+    sdefs = [st for st in ast.walk(wr) if isinstance(st, ast.Assign) and any(norm(x) == "self.schema" for t in st.targets for x in ([t] if not isinstance(t, (ast.Tuple, ast.List)) else t.elts))]
+    ctx.floor("R19.1", "assignments of self.schema in AvroWriter.write", len(sdefs), 1)
+    for st in sdefs:
+        v = expand_aliases(st.value, wal) if not isinstance(st.targets[0], (ast.Tuple, ast.List)) else st.value
+        good = isinstance(v, ast.Call) and getattr(prog.resolve_expr(av, v.func), "qualname", "") == "flow.record.adapter.avro.descriptor_to_schema" and len(v.args) == 1 \
+            and norm(expand_aliases(v.args[0], wal)) in ("self.desc", f"{r}._desc")
+        ctx.check(good, "R19.1", "AvroWriter.write:schema-of-own-descriptor", f"self.schema is `{norm(st.value)[:60]}`, not descriptor_to_schema(<this writer's descriptor>): a schema obtained "
+                  "any other way (e.g. a cache keyed by type name) can belong to another field list - fields are then dropped or written as null without error", st,
+                  "self.schema = descriptor_to_schema(self.desc)", key="R19.1:AvroWriter.write:schema-provenance")
     # RecordDescriptor.__eq__ compares name and field tuples
     deq = ctx.anchor_func("flow.record.base.RecordDescriptor.__eq__")
     ctx.check("self.name == other.name" in norm(deq) and "get_field_tuples() == other.get_field_tuples()" in norm(deq), "R19.1", "RecordDescriptor.__eq__:name-and-fields",
